@@ -310,6 +310,10 @@ def leaf_contracts():
     cs.append(Contract(target=f"{FN}/counting/count_lines.py::LineNumber._produce_value",
                        ensures={"is_the_physical_line_number": "same(self.value, self.matcher.csvpath._line_monitor._physical_line_number)"},
                        property_clauses={"is_the_physical_line_number": "C03"}, **pos, **base))
+    cs.append(Contract(target=f"{FN}/counting/total_lines.py::TotalLines._produce_value",
+                       ensures={"is_the_number_of_data_lines_in_the_file": "same(self.value, self.matcher.csvpath._line_monitor._data_end_line_count)"},
+                       inline=INL + ["LineMonitor.data_end_line_count"], property_clauses={"is_the_number_of_data_lines_in_the_file": "C03"}, **pos,
+                       **{k: v for k, v in base.items() if k != "inline"}))
     cs.append(Contract(target=f"{FN}/counting/count_scans.py::CountScans._produce_value",
                        types={"skip": "none", "self.value": "val"}, modifies=["self.value"], returns="none",
                        ensures={"is_the_scan_count": "same(self.value, self.matcher.csvpath.scan_count)"},
